@@ -611,7 +611,7 @@ func (vm *Thread) run() {
 		case bytecode.AWAIT_SYNC:
 			promise := (*Promise)(vm.peek().Pointer())
 
-			result, stackTrace, err := promise.AwaitSync()
+			result, stackTrace, err := promise.AwaitSyncCtx(vm.Aborter.Context())
 			if !err.IsUndefined() {
 				vm.pop()
 				vm.rethrow(err, vm.BuildStackTracePrepend(stackTrace))
